@@ -301,7 +301,7 @@ pub fn main(seed: u64, tier: &str, only: Option<&str>) {
         run_case("replay", &out::unhex(h), v, &mut stats);
         return;
     }
-    let n = if tier == "thorough" { 3000 } else { 200 };
+    let n = if tier == "thorough" { 3000 * crate::out::thorough_scale() } else { 200 };
     for case in 0..n {
         let mut rng = Rng::new(seed ^ 0x0ff5, case as u64);
         let mut g = if case % 3 == 0 { GenCfg::mvp() } else { GenCfg::random(&mut rng) };
